@@ -69,6 +69,15 @@ impl Visitor<StatementPos> for InstructionGenerator {
                 for _ in target_for_depth..self.for_depth {
                     self.push(Instruction::PopRegisters, pos);
                 }
+                // and the selectors of the SELECT CASE statements it leaves
+                let target_select_depth = self
+                    .label_select_depths
+                    .get(&name)
+                    .copied()
+                    .unwrap_or(self.select_depth);
+                for _ in target_select_depth..self.select_depth {
+                    self.push(Instruction::PopValueStackIntoA, pos);
+                }
                 self.push(Instruction::Jump(AddressOrLabel::Unresolved(name)), pos);
             }
             Statement::GoSub(label) => {
@@ -98,6 +107,10 @@ impl Visitor<StatementPos> for InstructionGenerator {
                 // leave the register frames of the enclosing FOR loops behind
                 for _ in 0..self.for_depth {
                     self.push(Instruction::PopRegisters, pos);
+                }
+                // and the selectors of the enclosing SELECT CASE statements
+                for _ in 0..self.select_depth {
+                    self.push(Instruction::PopValueStackIntoA, pos);
                 }
                 self.push(Instruction::PopRet, pos);
             }
